@@ -43,6 +43,16 @@ Theorem blocks_once_per_match : forall {rx : Type} t fl cfg glob (regexes : list
   iterM (fun b : stanza * qmatch => exec_stanza t fl cfg glob regexes find call fuel (fst b) (snd b)) (blocks sts ms) s p.
 Proof. intros rx. exact (@strict_blocks_once rx). Qed.
 
+(* ... and that block list is: per stanza in file order, per match of that stanza in the order the query reported
+   them, EXACTLY ONE block - the k-th match of the i-th stanza sits at position (number of matches of the earlier
+   stanzas) + k, and the list has one entry per (stanza, match) pair and no other. *)
+Theorem blocks_exactly_once : forall {A} sts (ms : list (list A)),
+  blocks sts ms = flat_map (fun sm : stanza * list A => map (fun x => (fst sm, x)) (snd sm)) (combine sts ms) /\
+  length (blocks sts ms) = fold_right (fun sm acc => (length (snd sm) + acc)%nat) 0%nat (combine sts ms) /\
+  (forall i k st m x, nth_error sts i = Some st -> nth_error ms i = Some m -> nth_error m k = Some x ->
+     nth_error (blocks sts ms) (length (blocks (firstn i sts) (firstn i ms)) + k) = Some (st, x)).
+Proof. intros A sts ms. split; [apply blocks_flat_map|]. split; [apply blocks_length|]. apply blocks_nth. Qed.
+
 (* lazy mode: although matches are found through ONE query merged from all stanzas, each reported match (i, m)
    runs the block of stanza i exactly once, in the reported order, before the evaluation phase; a pattern
    index outside the file is the only other possibility (a panic, never a silently skipped match) *)
